@@ -707,12 +707,12 @@ class DAG(BaseDAG[P, RVDAG]):
 
             # a deactivated SubDAG yields None for all its outputs, also for a parameter that is
             # returned as is: parameters left to their default value are bound like supplied constants
-            if is_active:
-                args = args + tuple(  # type: ignore[assignment]
-                    self.results[uxn.id]
-                    for uxn in self.input_uxns[len(args) :]
-                    if uxn.id in self.results
-                )
+            # (always: an enclosing DAG may be deactivated as a whole later on)
+            args = args + tuple(  # type: ignore[assignment]
+                self.results[uxn.id]
+                for uxn in self.input_uxns[len(args) :]
+                if uxn.id in self.results
+            )
 
             # provided args to the subdag
             arg_uxns = construct_subdag_arg_uxns(
